@@ -153,6 +153,7 @@ class SymEnumerate:
         self.seq, self.start = seq, start
 
 
+PARTIAL_OIDS = set()      # objects created from a contract's OBJ(...) spec: fields beyond the declared ones are unknown
 CLASS_OVERRIDES = {}      # (class qualname, attribute) -> value : documented assumptions about class state
 qn_module = {}
 BUILTIN_EXC = {}
@@ -778,6 +779,11 @@ class Interp:
                     return
                 if self.spec:
                     raise Unsupported("spec: no attribute %s on %s" % (name, v.cls.name))
+                if v.oid in PARTIAL_OIDS:
+                    # an object described by a contract's spec: only the declared fields are known; an attribute the
+                    # spec does not mention may well exist on the real object (e.g. one added to __init__ later)
+                    raise Unsupported("attribute %s of %s is not described by the contract (self_spec / parameter spec)"
+                                      % (name, v.cls.name))
                 yield st, Raise(make_exc(st, "AttributeError", "%s has no attribute %s" % (v.cls.name, name)))
                 return
             if isinstance(a, FuncVal):
